@@ -54,6 +54,7 @@ fn main() {
         "C14" => drive::<vcore::c14::C14>(&args),
         "C05" => drive::<vcore::c05::C05>(&args),
         "C06" => drive::<vcore::c06::C06>(&args),
+        "C09" => drive::<vcore::c09::C09>(&args),
         "C15" => drive::<vcore::c15::C15>(&args),
         _ => {
             eprintln!("unknown property id {id}");
